@@ -229,6 +229,28 @@ def run(repo, rep, tier):
     rep.check('lists', 'optional host keys are pruned from the peer list (not from the policy list)', ok, ph[0] if ph else pe, 'optional-host-key pruning is not `[x for x in peer if x not in optional]`')
 
     # ---- rule 4: size fields ------------------------------------------------------------------------------------
+    from sa.abseval import track_block, Opaque
+    from sa.core import bind_args as _bind
+
+    def make_hook(env):
+        # a guard may delegate to a small helper method of Policy: it is interpreted on the bound arguments
+        def hook(node):
+            if isinstance(node, ast.Call) and isinstance(node.func, ast.Attribute) and unparse(node.func.value) in ('self', 'Policy'):
+                if repo.has_func('policy', 'Policy.' + node.func.attr):
+                    m = repo.func('policy', 'Policy.' + node.func.attr)
+                    b = _bind(node, m, skip_self=True)
+                    env2 = {k: v for k, v in env.items() if k.startswith('self.')}
+                    for par, a in b.items():
+                        env2[par] = ev(a, env, hook)
+                    env2['<return>'] = None
+                    body = [st for st in m.body if not (isinstance(st, ast.Expr) and isinstance(st.value, ast.Constant))]
+                    track_block(body, env2, {'<return>'}, hook=make_hook(env2))
+                    if isinstance(env2['<return>'], Opaque):
+                        raise Unknown('helper %s not interpretable' % node.func.attr)
+                    return (True, env2['<return>'])
+            return None
+        return hook
+
     def size_site(label, actual, expected, actual_src, expected_src):
         ss = sites.get(label, [])
         rep.check('sizes', '%s: one failing site' % label, len(ss) == 1, ss[0] if ss else pe, '%s has %d failing sites' % (label, len(ss)))
@@ -245,7 +267,7 @@ def run(repo, rep, tier):
             for a, rel in ((9, '<'), (10, '='), (11, '>')):
                 env = {FLAG_LARGER: flag, actual: a, expected: 10}
                 try:
-                    got = bool(ev(g, env)) == pol
+                    got = bool(ev(g, env, make_hook(env))) == pol
                 except Unknown as e:
                     raise AnalysisError('%s: size guard not interpretable: %s' % (label, e))
                 want = (flag and a < 10) or (not flag and a != 10)
